@@ -32,6 +32,7 @@ from optilint.model import FuncVal, ExtVal
 from optilint.core import Incomplete
 from optilint.expr import Rat, Poly
 from optilint.tensoreval import Dual, Arr, PyFunc, Closure, Ext, Unknown, EvalError, Raised, matmul, _A, rat_is_zero
+from optilint.tensoreval import Deriv
 from . import tensorid
 from .C12_sym import SymInterp, tree_flatten, is_callable_value, callable_scope
 from .C12_eigen import pair_maker
@@ -163,6 +164,7 @@ class JvpFunction:
         self.helper = None             # scope of the tangent helper
         self.h_args, self.h_kwargs = None, None
         self.ft = self.rd = None
+        self.dfs, self.df_ok, self.df_why = [], True, ""     # derivative(s) of the scalar function handed over next to it, and their agreement with d ft
         self.roles_why = ""
         self.same_f, self.shown = None, ""
         self.args_ok, self.args_why = None, ""
@@ -228,6 +230,81 @@ def values_agree(I, xs, ys, base):
     except (KeyError, ZeroDivisionError, OverflowError, ValueError, TypeError):
         return None, "not evaluable at a sample point"
     return None, "equal at sample points, not proved equal"
+
+
+def split_roles(I, fns, who="the helper", fp=None):
+    """The roles of the callables handed to a tangent helper, by interpretation: exactly one callable of two scalars (the relative
+    difference) and one callable of one scalar (the scalar function).  Further callables of one scalar are accepted when they are handed
+    over as the DERIVATIVE of the scalar function (an optional `dfunc=jax.jacfwd(f)`, a hand-written f'): each is compared with the forward
+    derivative of the scalar function on a symbol.
+    -> (scalar function, relative difference, [derivatives], agreement True / None / False, text)   or a text saying what was found"""
+    kinds = [(v, arity(I, v)) for v in fns]
+    un, bi = [v for v, n_ in kinds if n_ == 1], [v for v, n_ in kinds if n_ == 2]
+    if len(un) == 1 and len(bi) == 1:
+        return (un[0], bi[0], [], True, "")
+    text = f"{who} receives {len(un)} callable(s) of one argument and {len(bi)} of two (one of each expected: scalar function and relative difference)"
+    if len(bi) != 1 or len(un) < 2 or len(un) > 3:
+        return text
+    u = Dual(_A.atom("@u"))
+    I.positive.add("@u")
+
+    def against(f, others):
+        """agreement of every g in others with d f / d u: True (exact) / None (sample points only, not evaluable) / False (+ text)"""
+        try:
+            df = I.num(I.call(Deriv(f, 0), [u], {}))
+            if not isinstance(df, Dual):
+                return None, "the derivative of the scalar function is not a scalar"
+            worst, why = True, ""
+            for g in others:
+                gv = I.num(I.call(g, [u], {}))
+                if not isinstance(gv, Dual) or not rat_is_zero(gv.b) or not rat_is_zero(df.b):
+                    return None, "the derivative handed over does not return a plain scalar"
+                ok, w = values_agree(I, [df], [gv], [{"@u": 0.7}, {"@u": 1.9}])
+                if ok is False:
+                    return False, f"d f/d u = {df.a!r} against {gv.a!r}: {w}"
+                if ok is None:
+                    worst, why = None, f"derivative handed over against d f/d u: {w}"
+            return worst, why
+        except _ERR as ex:
+            return None, f"cannot differentiate the scalar function on a symbol: {ex}"
+    plain = [v for v in un if not isinstance(v, Deriv)]
+    if len(plain) == 1:
+        # the others are jax.grad / jacfwd / jacrev objects: derivatives by construction, the only question is of what
+        ders = [v for v in un if v is not plain[0]]
+        ok, why = against(plain[0], ders)
+        return (plain[0], bi[0], ders, ok, why)
+    fits = []
+    for f in un:
+        others = [g for g in un if g is not f]
+        ok, why = against(f, others)
+        if ok is not False:
+            fits.append((f, others, ok, why))
+    if len(fits) == 1:
+        f, others, ok, why = fits[0]
+        return (f, bi[0], others, ok, why)
+    if len(fits) == len(un) and all(ok is True for _f, _o, ok, _w in fits):
+        # every one is exactly the derivative of every other one: if they are all the same function (exp), the roles are interchangeable
+        try:
+            vals = [I.num(I.call(f, [u], {})) for f in un]
+            if all(isinstance(v, Dual) and same(v, vals[0]) for v in vals):
+                f, others, ok, why = fits[0]
+                return (f, bi[0], others, ok, why)
+        except _ERR:
+            pass
+    if not fits and fp is not None:
+        # none is the derivative of another: the scalar function is the one that IS the scalar function of the primal (exactly), the others
+        # are handed over next to it and are not its derivative (what the helper does with them is read by the caller before anything is said)
+        try:
+            lam = [Dual(_A.atom(n_)) for n_ in L]
+            is_fp = [f for f in un if all(same(I.num(I.call(f, [x], {})), y) for x, y in zip(lam, fp))]
+            if len(is_fp) == 1:
+                others = [g for g in un if g is not is_fp[0]]
+                ok, why = against(is_fp[0], others)
+                if ok is False:
+                    return (is_fp[0], bi[0], others, False, why)
+        except _ERR:
+            pass
+    return text + ("; none of them is the derivative of another" if not fits else "; which one is the scalar function is ambiguous")
 
 
 def analyse(ctx, name, fscope, mname, rule, rule_why) -> JvpFunction:
@@ -328,12 +405,9 @@ def analyse(ctx, name, fscope, mname, rule, rule_why) -> JvpFunction:
             else:
                 hook_, I.call_hook = I.call_hook, None
                 try:
-                    kinds = [(v, arity(I, v)) for v in fns]
+                    memo[key] = split_roles(I, fns, f.scope.name, jf.fp)
                 finally:
                     I.call_hook = hook_
-                un, bi = [v for v, n_ in kinds if n_ == 1], [v for v, n_ in kinds if n_ == 2]
-                memo[key] = (un[0], bi[0]) if len(un) == 1 and len(bi) == 1 else \
-                    f"{f.scope.name} receives {len(un)} callable(s) of one argument and {len(bi)} of two (one of each expected: scalar function and relative difference)"
         return memo[key]
 
     def eig_a(it, args, kw):
@@ -411,10 +485,9 @@ def analyse(ctx, name, fscope, mname, rule, rule_why) -> JvpFunction:
         else:
             # the same roles on the call that pass B recorded (the leaves are the same objects when the rule is deterministic)
             leaves, _ = tree_flatten((tuple(jf.h_args), dict(jf.h_kwargs)))
-            fns = [(v, arity(I, v)) for v in leaves if is_callable_value(v)]
-            un, bi = [v for v, n_ in fns if n_ == 1], [v for v, n_ in fns if n_ == 2]
-            if len(un) == 1 and len(bi) == 1:
-                jf.ft, jf.rd = un[0], bi[0]
+            r_ = split_roles(I, [v for v in leaves if is_callable_value(v)], fp=jf.fp)
+            if isinstance(r_, tuple):
+                jf.ft, jf.rd, jf.dfs, jf.df_ok, jf.df_why = r_
             else:
                 jf.ft = jf.rd = None
                 jf.roles_why = "the callables handed to the tangent helper could not be told apart"
@@ -474,7 +547,7 @@ def _dd():
     return PyFunc("dd", lambda it, a, k: (lambda x, y: x * x + x * y + y * y)(it.num(a[0]), it.num(a[1])))
 
 
-def run_helper(ctx, jf, names):
+def run_helper(ctx, jf, names, df_standin=None):
     """the tangent helper interpreted on the arguments the rule of `jf` passes to it, with the roles replaced by generic data:
     matrix primal -> C (atoms p[..]), its tangent -> Cdot (atoms c[..]), scalar function -> x^3, relative difference -> x^2+xy+y^2;
     the eigen solver returns (names as eigenvalues, generic V).  -> (result, arguments of the eigen solver calls, interpreter)"""
@@ -497,6 +570,8 @@ def run_helper(ctx, jf, names):
             new.append(_cube())
         elif v is jf.rd:
             new.append(_dd())
+        elif any(v is d_ for d_ in jf.dfs):
+            new.append(df_standin or Deriv(_cube(), 0))             # handed over as the derivative of the scalar function: the derivative of the stand-in
         elif jf.slot is not None and same(v, jf.primals[jf.slot]):
             new.append(C)
         elif jf.slot is not None and same(v, jf.tangents[jf.slot]):
@@ -510,6 +585,32 @@ def run_helper(ctx, jf, names):
     a, k = rebuild(new)
     out = I2.run(jf.helper, list(a), dict(k))
     return out, eig_calls, I2
+
+
+def helper_uses_derivative(ctx, jf):
+    """True when the callable the helper receives next to the scalar function is used by it AS the derivative of the scalar function: the
+    tangent depends on it (interpreted with a marked stand-in in its place) and, with f = x^3 and 3x^2 in its place, the helper returns the
+    Daleckii-Krein form for distinct eigenvalues (so anything but f' in that place gives a wrong tangent); None when that cannot be read"""
+    mark = PyFunc("dmark", lambda it, a, k: it.num(a[0]) * Dual(_A.atom("@dmark")))
+    try:
+        out, _eig, I2 = run_helper(ctx, jf, L)
+        want = _expected([Dual(_A.atom(n_)) for n_ in L], tensorid.generic("v"), tensorid.generic("c"))
+        if not (isinstance(out, Arr) and out.shape == (3, 3) and all(isinstance(x, Dual) for x in out.data)):
+            return None
+        got = [x.a for x in out.data]
+        if I2.sel_log:
+            got = [I2.specialise(g_, {"l0": 0.7, "l1": 1.9, "l2": 3.1}) for g_ in got]
+        if not all(_A.equal(g_, w_.a) for g_, w_ in zip(got, want.data)):
+            return None
+        out, _eig, I2 = run_helper(ctx, jf, L, df_standin=mark)
+        if not (isinstance(out, Arr) and all(isinstance(x, Dual) for x in out.data)):
+            return None
+        atoms = set()
+        for x in out.data:
+            atoms |= I2.reach([x.a])[0]
+        return "@dmark" in atoms
+    except _ERR:
+        return None
 
 
 _CACHE = {}
@@ -566,8 +667,16 @@ def jvp_wiring(ctx, rule):
         elif jf.args_ok is False:
             ctx.refuted(rule, r, None, construct=construct,
                         detail=f"{jf.name}: the tangent helper does not receive (matrix primal,), (its tangent,) of the decorated function: {jf.args_why}")
+        elif jf.dfs and jf.df_ok is False and helper_uses_derivative(ctx, jf) is not True:
+            ctx.undecided(rule, r, None, construct=construct, detail=f"{jf.name}: a callable handed to the tangent helper next to the scalar function is not its "
+                                                                     f"derivative ({jf.df_why}) and the tangent was not seen to depend on it")
+        elif jf.dfs and jf.df_ok is False:
+            ctx.refuted(rule, r, None, construct=construct,
+                        detail=f"{jf.name}: the callable handed to the tangent helper as the derivative of the scalar function is not its derivative: {jf.df_why}")
         elif jf.same_f is None or jf.args_ok is None:
             ctx.undecided(rule, r, None, construct=construct, detail=f"{jf.name}: {jf.shown if jf.same_f is None else jf.args_why}")
+        elif jf.dfs and jf.df_ok is None:
+            ctx.undecided(rule, r, None, construct=construct, detail=f"{jf.name}: {jf.df_why}")
         else:
             ctx.proved(rule, r, None, construct=construct, detail=f"both use the same scalar function ({jf.shown.split(',')[0]}); the helper decomposes the matrix primal and rotates its tangent")
     if len(jfs) < 5:
@@ -604,13 +713,17 @@ def helper_rules(ctx, rule):
         raise Incomplete(f"the tangent helper of the spectral matrix functions was not found by interpretation ({why})")
     done = set()
     for jf in sorted(jfs, key=lambda j: (j.args_ok is not True, j.name)):
-        if jf.helper.qualname in done:
+        # one reading of the helper per way of calling it: without, and with a derivative of the scalar function handed over
+        key = (jf.helper.qualname, bool(jf.dfs))
+        if key in done:
             continue
-        done.add(jf.helper.qualname)
-        _helper_cases(ctx, rule, jf)
+        if jf.dfs and not (jf.same_f is True and jf.df_ok is True):
+            continue          # the roles of the callables of this call are not established (its own obligation above is not proved)
+        done.add(key)
+        _helper_cases(ctx, rule, jf, tag="[derivative of the scalar function handed over]" if jf.dfs else "")
 
 
-def _helper_cases(ctx, rule, jf):
+def _helper_cases(ctx, rule, jf, tag=""):
     h = jf.helper
     ctx.touch(h)
     V, Cd = tensorid.generic("v"), tensorid.generic("c")
@@ -656,17 +769,17 @@ def _helper_cases(ctx, rule, jf):
                         break
             if bad and opened and not tolerance_witness and cname == "distinct":
                 verdicts[cname] = None
-                ctx.undecided(rule, h, None, construct=f"helper:daleckii-krein-assembly:{cname}",
+                ctx.undecided(rule, h, None, construct=f"helper:daleckii-krein-assembly:{cname}{tag}",
                               detail=f"the tangent depends on conditions that generic distinct eigenvalues do not decide: {sorted(opened)[:2]}")
                 continue
             verdicts[cname] = not bad
-            ctx.decide(rule, not bad, h, None, construct=f"helper:daleckii-krein-assembly:{cname}",
+            ctx.decide(rule, not bad, h, None, construct=f"helper:daleckii-krein-assembly:{cname}{tag}",
                        detail=f"tangent == V (h o V^T sym(Cdot) V) V^T for generic V, Cdot and {cname} eigenvalues (f = x^3)",
                        bad_detail=f"for {cname} eigenvalues the tangent differs from V (h o V^T sym(Cdot) V) V^T in entries {bad} "
                                   f"(generic V, generic Cdot, f(x) = x^3 with its exact divided difference)")
         except _ERR as ex:
             verdicts[cname] = None
-            ctx.undecided(rule, h, None, construct=f"helper:daleckii-krein-assembly:{cname}", detail=f"cannot interpret the helper on generic data: {ex}")
+            ctx.undecided(rule, h, None, construct=f"helper:daleckii-krein-assembly:{cname}{tag}", detail=f"cannot interpret the helper on generic data: {ex}")
     # ---- the switch between divided difference and derivative
     if tolerance_witness is not None:
         c, pt = tolerance_witness
@@ -678,7 +791,7 @@ def _helper_cases(ctx, rule, jf):
         ok, why = True, ""
     else:
         ok, why = None, "the switch between divided difference and derivative could not be read"
-    ctx.decide(rule, ok, h, None, construct="helper:degenerate-fallback-is-derivative",
+    ctx.decide(rule, ok, h, None, construct=f"helper:degenerate-fallback-is-derivative{tag}",
                detail="exact equality of two eigenvalues (and nothing else) selects the derivative f'(a) instead of the divided difference",
                bad_detail=f"the divided difference does not fall back to the derivative exactly at equal eigenvalues: {why}")
 
